@@ -41,7 +41,9 @@ LINK_CORE = ["[link](http://ex.com/a)", "[two words](http://ex.com/a_b?q=1&r=2)"
              "![alt text](img.png)", "![a](i.png \"ti tle\")", "<https://example.org/path>", "[*em* link](http://x.y/z)",
              "[with `code` in](http://x.y)", "https://bare.example.com/p?q=1", "[it's \"q\"](http://q.uo/te's)",
              "<mailto:a@b.co>", "https://en.wikipedia.org/wiki/O'Reilly_Media", "<https://x.y/it's>",
-             "[same dest](http://ref.example/x)", "[same dest](http://ref.example/x \"Different\")", "[same dest](/rel/path_a \"Title here\")"]
+             "[same dest](http://ref.example/x)", "[same dest](http://ref.example/x \"Different\")", "[same dest](/rel/path_a \"Title here\")",
+             # autolinks whose resolved target differs from what is written (scheme added by the reader)
+             "www.example.com/chef's-menu", "<a.b@c.example>", "www.bare.example.org"]
 LINK_HOSTILE = ["[sp](<http://x.y/a b>)", "[t](http://x.y 'single')", "[p](http://x.y (paren))", "[dots. End](http://x.y)",
                 "[nested [br]](http://x.y)", "[e](http://x.y/(a))", "www.bare.example.org"]
 HTML_INL = ["<span class=\"a b\">", "</span>", "<br/>", "<b>", "</b>", "<a href=\"http://x.y/z\" title=\"t's\">", "</a>"]
@@ -242,7 +244,7 @@ class Gen:
         if depth >= 3 or k < 0.34:
             return self.para()
         if k < 0.44:
-            if ctx != "top" and not self.hostile:
+            if ctx != "top" and not self.hostile and (ctx == "fn" or r.random() < 0.5):
                 return self.para()
             if ctx != "top":
                 self.feats.add("heading-in-container")
@@ -279,7 +281,7 @@ class Gen:
         if k < 0.74:
             if ctx == "fn":
                 return self.para()
-            alert = r.random() < 0.25 and ctx == "top"
+            alert = r.random() < 0.25 and ctx in ("top", "item")
             self.feats.add("alert" if alert else "quote")
             n = r.randint(1, 3)
             blocks = self.blocks(depth + 1, "quote", n)
@@ -417,6 +419,10 @@ class Gen:
                 blocks.append(self.block(depth + 1, "item"))
                 self.feats.add("multi-block-item")
             items.append(blocks)
+        if not task and r.random() < 0.06:
+            # a thematic break as the whole content of an item (the rule must not merge with the bullet into one long rule)
+            items[r.randrange(nitems)] = [{"t": "hr", "s": "item"}]
+            self.feats.add("hr-in-item")
         if nitems > 1 and not task and r.random() < 0.08:
             # an item with no content at all (just its marker); never the first one (after a paragraph line a lone '-' would
             # be a setext underline)
@@ -560,7 +566,10 @@ class Ser:
     def blocks(self, blocks: list[dict], tight: bool = False) -> list[tuple[str, str]]:
         out: list[tuple[str, str]] = []
         for i, b in enumerate(blocks):
-            if i and not (tight and b["t"] == "list"):
+            if i and blocks[i - 1]["t"] == "heading" and blocks[i - 1]["style"] == "atx" and self.wild and b["t"] != "icode" \
+                    and self.L.random() < 0.15:
+                pass  # no blank line is needed after an ATX heading
+            elif i and not (tight and b["t"] == "list"):
                 out.extend([("", "x")] * (1 if (not self.wild or self.L.random() < 0.85) else 2))
             out.extend(self.block(b))
         return out
@@ -593,6 +602,13 @@ class Ser:
                            for i, w in enumerate(b["words"]))
             if b["style"] == "atx":
                 return X(["#" * b["level"] + " " + text + (" " + "#" * L.randint(1, 3) if b.get("closing") else "")])
+            ws_ = b["words"]
+            if self.wild and len(ws_) >= 3 and L.random() < 0.35:
+                # a setext heading may span several lines
+                k_ = L.randint(1, len(ws_) - 1)
+                if not _could_start_block(ws_[k_]) and not _is_tagword(ws_[k_]) and not _is_tagword(ws_[k_ - 1]) and ws_[k_][:1].isalnum() \
+                        and not ws_[k_ - 1].endswith("\\"):
+                    return X([" ".join(ws_[:k_]), " ".join(ws_[k_:]), ("=" if b["level"] == 1 else "-") * 5])
             return X([text, ("=" if b["level"] == 1 else "-") * max(3, min(len(text), 12))])
         if t == "hr":
             return X([b["s"]])
@@ -624,7 +640,7 @@ class Ser:
                 a = {"upper": a, "lower": a.lower(), "title": a.title()}[b["alert_case"]]
                 head = [(f"> [!{a}]", "x")]
                 return head + self.prefix([("", "x")] + inner, "", "> ", ">")[1:] if False else \
-                    head + [(("> " + ln) if ln else ">", k) for ln, k in inner]
+                    head + [(("> " + ln) if ln else ">", "x") for ln, k in inner]
             res = self.prefix(inner, "> ", "> ", ">")
             if b.get("trailing_blank"):
                 res.append((">", "x"))  # a trailing empty quoted line (part of the tree, not a layout choice)
@@ -642,6 +658,9 @@ class Ser:
                     lines.append(("", "x"))
                 if not item:
                     lines.append((marker.rstrip(), "x"))
+                    continue
+                if len(item) == 1 and item[0]["t"] == "hr" and item[0]["s"] == "item":
+                    lines.append((marker + ("***" if marker.startswith("-") else "---"), "x"))
                     continue
                 self.cdepth += 1
                 inner = self.blocks(item, tight=b["tight"])
